@@ -1,0 +1,51 @@
+//go:build verif
+
+// Contracts for the revision allocator, checked by /verif/kbv (build tag "verif").
+// This file contains comments only; it adds no declarations to the package.
+
+package tso
+
+// Every atomic write to dealRevision, by any goroutine, leaves it unchanged or larger.
+//@ guarantee naiveTSO.dealRevision new_v >= old_v
+// Revisions do not wrap around 2^64 (trusted, listed in the evidence).
+//@ range_assumed naiveTSO.dealRevision v < 0xffffffffffffffff
+
+// The interface contract is stated over ghost state: max_issued is the largest revision ever
+// dealt, pending (declared in package backend) the revision dealt to the current request.
+// (*naiveTSO).Deal is proved to satisfy its non-ghost core (strict increase by one, err == nil);
+// the bound below 2^63 is the trusted no-wrap assumption.
+//@ func TSO.Deal() (revision, err)
+//@   assumed
+//@   modifies ghost.max_issued ghost.pending
+//@   ensures [fresh] err == nil ==> revision > old(max_issued) && max_issued == revision && pending == revision && revision != 0 && revision < 0x8000000000000000
+//@   ensures [failed] err != nil ==> revision == 0 && max_issued == old(max_issued) && pending == old(pending)
+
+//@ func TSO.GetRevision() (maxCommittedRevision)
+//@   assumed
+//@   pure
+
+//@ func TSO.Commit(revision)
+//@   assumed
+//@   pure
+
+//@ ghost max_issued (_ BitVec 64)
+
+//@ func (*naiveTSO).Deal
+//@   props C02 C04
+//@   modifies naiveTSO.dealRevision
+//@   ensures [strict-increase] step_new(naiveTSO.dealRevision) > step_old(naiveTSO.dealRevision) && step_new(naiveTSO.dealRevision) == step_old(naiveTSO.dealRevision)+1
+//@   ensures [returns-new] revision == step_new(naiveTSO.dealRevision) && err == nil
+
+//@ func (*naiveTSO).Commit
+//@   props C02 C04
+//@   modifies naiveTSO.dealRevision naiveTSO.committedRevision
+//@   ensures [committed] step_new(naiveTSO.committedRevision) == revision
+
+//@ func (*naiveTSO).GetRevision
+//@   props C02
+
+// Init overwrites both counters unconditionally; it is sound only while nothing calls it.
+//@ func (*naiveTSO).Init
+//@   props C02
+//@   uncalled
+//@   modifies naiveTSO.dealRevision naiveTSO.committedRevision
